@@ -366,6 +366,11 @@ impl Disk {
         for _try in 0..100 {
             let mut dir = self.get_directory(curr as usize)?;
             if dir.next()==0 {
+                // every walk over a directory gives up after 100 blocks: a block beyond that could never be reached again
+                if _try==99 {
+                    error!("directory has reached 100 blocks");
+                    return Err(Box::new(Error::DirectoryFull));
+                }
                 if let Some(avail) = self.get_available_block()? {
                     // update the parent entry
                     entry.set_eof(entry.eof()+512);
